@@ -152,6 +152,9 @@ def cases(seed, tier):
                 for cached in (False, True):
                     out.append(product_case(kind, "multiply", uf, cached, R1, R2, D, si))
             out.append(product_case(kind, "mul", False, bool(si % 2), R1, R2, D, si))
+            if si == 0:
+                out.append(product_case(kind, "mul", False, True, 3, 3, D, si))      # equal batches: still the full n*n product
+                out.append(product_case(kind, "mul", False, False, 2, 2, D, si))
             # hadamard: equal batches, single-component factor, single-component measure
             for (a, b) in ((R1, R1), (R1, 1), (1, R2)):
                 for uf in (False, True):
